@@ -174,7 +174,7 @@ def busy_client_case(res, W, rng):
     in_msg = False
     try:
         for step in range(rng.randrange(3, 9)):
-            act = rng.choice(["frag-start", "frag-cont", "frag-end", "own-ping", "own-text", "server-ping", "server-ping", "server-text"])
+            act = rng.choice(["frag-start", "frag-cont", "frag-end", "own-ping", "own-text", "server-ping", "server-ping", "server-text", "server-pong", "own-pong"])
             if act == "frag-start" and not in_msg:
                 b = rng.randbytes(rng.choice([0, 3, 200]))
                 w.send_frame(W.ABNF.create_frame(b, W.ABNF.OPCODE_BINARY, 0)); expected.append((R.BINARY, b, 0)); in_msg = True
@@ -203,6 +203,18 @@ def busy_client_case(res, W, rng):
             elif act == "server-text":
                 conn.deliver(R.encode(R.TEXT, b"y"))
                 w.recv()
+            elif act == "server-pong":
+                # a pong nobody asked for, or one that answers an earlier ping of ours with whatever payload: nothing is written for it
+                conn.deliver(R.encode(R.PONG, rng.choice([b"", b"mine", b"server-heartbeat", b"x" * 125])) + R.encode(R.TEXT, b"z"))
+                name, cf = mode
+                for _ in range(2):
+                    if name == "recv":
+                        w.recv(); break
+                    op, _d = (w.recv_data(cf) if name == "recv_data" else w.recv_data_frame(cf))
+                    if op == R.TEXT:
+                        break
+            elif act == "own-pong":
+                w.pong(b"hb"); expected.append((R.PONG, b"hb", 1))
             else:
                 continue
             case["steps"].append(act)
